@@ -25,6 +25,15 @@
  *   ix  frame lengths straddling 2^15, 2^16, 2^31, 2^32 (lazily generated
  *       streams): too large for the block, or just fitting a large block;
  *       reads of 2^16 -+ 1 octets from a large block
+ *   x   tcp + chunk source offering its own buffer: every cutting of the first
+ *       frame of a stream into pieces (up to 2/3 piece boundaries, every
+ *       uniform limit on the size of a read) x allocation failure per
+ *       reception x allocator kind x block large / exact / one octet short
+ * Allocation failure is scripted per reception (every allocator call made
+ * during the k-th regp_recv fails), not per allocator call.  That a valid
+ * request which fits is served is C06's sentence: a request answered in another
+ * way ends in the class request-refused and is held to well-formed replies,
+ * memory safety, the hang clause and the ledger only.
  * Families i and iii also run on "tcp + chunk source offering a scratch buffer
  * (getbuffer extension)": the frame then reaches the receiver in chunks of up
  * to 64 octets instead of octet by octet.
@@ -45,6 +54,51 @@ static bool g_th;
 
 static const unsigned char SUBST[13] = { 0x00, 0x01, 0x03, 0x07, 0x0c, 0x10, 0x7f, 0x80, 0xc0, 0xdb, 0xdc, 0xdd, 0xff };
 
+/* ---- allocation failure, per reception ------------------------------------------------------ */
+/* "Allocation failure at every allocation": the unit is the reception, not the
+ * allocator call.  Bit k of g_rfail makes EVERY allocator call made during the
+ * k-th regp_recv of the case's instance fail (a receiver that asks again after
+ * a refusal is refused again); calls made outside regp_recv are served.
+ * g_rfailed records in which receptions a call was in fact refused (a receiver
+ * that needs no block for a reception meets no failure there). */
+static unsigned g_rfail, g_rfailed;
+static int g_rix;
+static bool g_in_recv;
+
+static int
+c09_alloc(void *driver, void **m, size_t n)
+{
+    struct drv *d = driver;
+    if (g_in_recv && g_rix >= 0 && g_rix < 32 && (g_rfail & (1u << g_rix))) {
+        g_rfailed |= 1u << g_rix;
+        d->allocs++;
+        *m = NULL;
+        return -ENOMEM;
+    }
+    return drv_alloc(driver, m, n);
+}
+
+/* the case's instance: the closed driver of regp_ref.h behind this allocator */
+static void
+c09_init(struct drv *d, bool tcp, bool m16, size_t blocksize, int srcmode)
+{
+    drv_init_ex(d, tcp, m16, blocksize, srcmode);
+    d->alloc = (BlockAllocator)MAKE_GENERIC_BLOCKALLOC(d, c09_alloc, drv_free, blocksize);
+    g_rfail = g_rfailed = 0;
+    g_rix = -1;
+    g_in_recv = false;
+}
+
+static int
+c09_recv(struct drv *d, RPMaybeFrame *mf)
+{
+    g_rix++;
+    g_in_recv = true;
+    const int rc = regp_recv(&d->p, mf);
+    g_in_recv = false;
+    return rc;
+}
+
 struct result {
     int rrc[3], prc[3], errid[3];
     bool hadframe[3];
@@ -61,7 +115,7 @@ serve(struct drv *d, const unsigned char *wire, size_t wn, int maxframes, struct
     for (int k = 0; k < maxframes; ++k) {
         RPMaybeFrame mf;
         memset(&mf, 0, sizeof mf);
-        r->rrc[k] = regp_recv(&d->p, &mf);
+        r->rrc[k] = c09_recv(d, &mf);
         r->errid[k] = mf.error.id;
         r->hadframe[k] = mf.frame != NULL;
         if (r->rrc[k] >= 0)
@@ -157,7 +211,7 @@ static int
 drv_slab_alloc(void *driver, void **m)
 {
     struct drv *d = driver;
-    return drv_alloc(driver, m, d->blocksize);
+    return c09_alloc(driver, m, d->blocksize);
 }
 
 static void
@@ -182,6 +236,25 @@ learned_capacity(size_t bsz, bool serial, size_t *cap)
             mc_cap("the library's answers define no capacity for some block sizes: capacity clauses left out there");
         capped = true;
         return false;
+    }
+    /* "Not received" means "too large for the block" only if the block is the
+     * reason: a receiver with a larger block must receive the request of c + 1
+     * octets (a receiver may refuse requests on other grounds, e.g. a limit on
+     * the size of writes; what it then shows is not a capacity). */
+    {
+        static signed char verified[DRV_CAPCACHE]; /* 0 not asked, 1 yes, -1 no */
+        signed char v = bsz < DRV_CAPCACHE ? verified[bsz] : 0;
+        if (v == 0) {
+            v = drv_probe_accepts(true, 2 * bsz + 128, c ? c + 1 : 12) == 1 ? 1 : -1;
+            if (bsz < DRV_CAPCACHE)
+                verified[bsz] = v;
+        }
+        if (v < 0) {
+            if (!capped)
+                mc_cap("the library's answers define no capacity for some block sizes: capacity clauses left out there");
+            capped = true;
+            return false;
+        }
     }
     const size_t guess = bsz - sizeof(RPFrame);
     if (c != 0 && (c > guess + 2 || c + 6 < guess) && !capped_far) {
@@ -218,7 +291,7 @@ family_i(void)
                     mc_log("learned capacity of blocks of %zu octets: %s%zu", bsz, known ? "" : "none; first guess ", known ? cap : guess);
                     const size_t n = build_request(raw, tcp, true, w16, 0x40, (uint32_t)(plen / (w16 ? 2 : 1)), plen, 0x0a0b);
                     const size_t wn = frame_wire(tcp, raw, n, wire);
-                    drv_init_ex(&D, tcp, w16, bsz, tv_srcmode(tv));
+                    c09_init(&D, tcp, w16, bsz, tv_srcmode(tv));
                     struct result r;
                     serve(&D, wire, wn, 1, &r);
                     mc_log("recv rc=%d error.id=%d frame=%d process rc=%d calls=%d reply=%zu", r.rrc[0], r.errid[0], r.hadframe[0], r.prc[0], D.ncalls, D.outlen);
@@ -232,12 +305,17 @@ family_i(void)
                             if (nr < 0)
                                 mc_fail("C09/reply-well-formed", "the reply is not a sequence of valid frames");
                         } else if (n <= cap) {
-                            outcome = "fits-executed";
-                            if (r.rrc[0] < 0 || r.errid[0] != 0 || D.ncalls != 1 || nr != 1 || rp[0].meta != 0)
-                                mc_fail("C09/frame-that-fits-is-served", "frame of %zu octets fits capacity %zu: rc=%d error.id=%d calls=%d replies=%d code=%u", n, cap,
-                                        r.rrc[0], r.errid[0], D.ncalls, nr, nr > 0 ? rp[0].meta : 99);
-                            else if (D.call[0].bsize != plen / (w16 ? 2u : 1u) || D.call[0].plen != plen)
-                                mc_fail("C09/payload-as-announced", "backend got %zu payload octets for an announced block of %zu", D.call[0].plen, plen);
+                            /* that a request which fits is served is C06's sentence; here: if it
+                             * is executed the backend gets the announced payload, and whatever is
+                             * sent back is well-formed */
+                            if (nr < 0)
+                                mc_fail("C09/reply-well-formed", "the reply to a write request of %zu octets (capacity %zu) is not a sequence of valid frames", n, cap);
+                            else if (D.ncalls == 1 && nr == 1 && rp[0].type == RT_WRITE_RESP && rp[0].meta == 0) {
+                                outcome = "fits-executed";
+                                if (D.call[0].bsize != plen / (w16 ? 2u : 1u) || D.call[0].plen != plen)
+                                    mc_fail("C09/payload-as-announced", "backend got %zu payload octets for an announced block of %zu", D.call[0].plen, plen);
+                            } else
+                                outcome = D.ncalls == 0 ? "request-refused" : "request-answered-otherwise";
                         } else {
                             outcome = cap >= 16 ? "overflow-answered" : "overflow-tiny-block";
                             if (D.ncalls != 0)
@@ -408,37 +486,34 @@ judge_read(int nr, const struct rframe *rp, int ncalls, uint32_t bs, size_t ws, 
 {
     const char *outcome = "?";
     const uint64_t octets = (uint64_t)bs * ws;
-    /* The answer is a message with a header of its own (up to 16 octets): a read
-     * that fits the learned capacity with it must be served.  Which reads
-     * "cannot fit" is for the library to say, through the buffer size its
-     * transmit-overflow responses carry: it must not serve a read of more
-     * octets than that (and where it puts an answer that does not fit the
-     * block, ASan sees).  In between either is right. */
-    const bool fits_with_full_header = cap_known && octets + 16 <= cap;
+    /* Which reads "cannot fit" is for the library to say, through the buffer
+     * size its transmit-overflow responses carry: it must not serve a read of
+     * more octets than that (and where it puts an answer that does not fit the
+     * block, ASan sees).  Below that either answer is right (that a read which
+     * fits is served is C06's sentence). */
     const bool beyond_reported_size = rl != NULL && rl->have_t && octets > rl->tval;
     const bool is_read_resp = nr == 1 && rp[0].type == RT_READ_RESP && rp[0].seq == 0x0c0d && rp[0].addr == 0x1000;
+    /* That a valid request is served, and answered with the right data, are
+     * C06's sentences.  A request the receiver answers in another way (another
+     * response code, a meta message, nothing) ends in the class
+     * request-refused: well-formed replies, memory safety, hang and the ledger
+     * are demanded of it like of everything else. */
+    const char *const refused = standard ? (ncalls == 0 ? "request-refused" : "request-answered-otherwise") : "read-variant-refused";
+    (void)cap_known;
+    (void)cap;
     if (nr < 0)
         mc_fail("C09/reply-well-formed", "the reply to a read request is not a sequence of valid frames");
-    else if (standard && !is_read_resp)
-        mc_fail("C09/read-answered", "%d replies (first type=%u) to a valid read request", nr, nr > 0 ? rp[0].type : 99);
-    else if (!is_read_resp) {
-        /* a non-standard header the receiver did not take as a valid request */
-        outcome = "read-variant-refused";
-        if (ncalls != 0)
-            mc_fail("C09/refused-not-executed", "%d replies, none a read response, but %d memory accesses", nr, ncalls);
-    } else if (rp[0].meta == 0) {
+    else if (!is_read_resp)
+        outcome = refused;
+    else if (rp[0].meta == 0) {
         outcome = standard ? "read-executed" : "read-variant-executed";
         if (beyond_reported_size)
             mc_fail("C09/tx-overflow-response", "a read of %u units (%llu octets) was acknowledged although the transmit-overflow responses of this block size report a buffer size of %u octets", bs,
                     (unsigned long long)octets, rl->tval);
-        else if (ncalls != 1 || rp[0].plen != octets)
-            mc_fail("C09/read-answered", "acknowledged read: calls=%d payload=%zu octets for %u words", ncalls, rp[0].plen, bs);
     } else if (rp[0].meta == 5) {
         outcome = "tx-overflow";
         const uint32_t val = rp[0].plen == 4 ? ((uint32_t)rp[0].payload[0] << 24 | (uint32_t)rp[0].payload[1] << 16 | (uint32_t)rp[0].payload[2] << 8 | rp[0].payload[3]) : 0;
-        if (fits_with_full_header)
-            mc_fail("C09/read-that-fits-is-served", "a read of %u words fits the capacity of %zu octets (learned) together with a full response header but got a transmit-overflow response", bs, cap);
-        else if (ncalls != 0)
+        if (ncalls != 0)
             mc_fail("C09/tx-overflow-response", "transmit overflow reported after %d memory accesses", ncalls);
         /* the buffer size: not more than the block; not less than an answer the
          * library serves from such a block; the same for every read it refuses */
@@ -449,13 +524,8 @@ judge_read(int nr, const struct rframe *rp, int ncalls, uint32_t bs, size_t ws, 
                     rl->maxserved, (unsigned long long)rl->maxserved * ws);
         else if (rl != NULL && rl->have_t && val != rl->tval)
             mc_fail("C09/tx-overflow-response", "transmit-overflow response reports a buffer size of %u octets; the one to a read of %u units reported %u", val, rl->maxserved + 1, rl->tval);
-    } else if (standard)
-        mc_fail("C09/read-answered", "read answered with response code %u", rp[0].meta);
-    else {
-        outcome = "read-variant-refused";
-        if (ncalls != 0)
-            mc_fail("C09/refused-not-executed", "answered with response code %u after %d memory accesses", rp[0].meta, ncalls);
-    }
+    } else
+        outcome = refused;
     return outcome;
 }
 
@@ -492,7 +562,7 @@ family_ii(void)
                     const size_t n = build_request(raw, tcp, false, w16, 0x1000, bs, 0, 0x0c0d);
                     g_opt_override = -1;
                     const size_t wn = frame_wire(tcp, raw, n, wire);
-                    drv_init(&D, tcp, w16, bsz, !tcp);
+                    c09_init(&D, tcp, w16, bsz, tcp ? DRV_SRC_CHUNK : DRV_SRC_OCTET);
                     struct result r;
                     serve(&D, wire, wn, 1, &r);
                     mc_log("recv rc=%d error.id=%d process rc=%d calls=%d reply=%zu", r.rrc[0], r.errid[0], r.prc[0], D.ncalls, D.outlen);
@@ -515,6 +585,40 @@ family_ii(void)
 }
 
 /* ---- family iii: allocation failure scripts ------------------------------------------ */
+/* The requests of a stream carry sequence number seq0 + k and address addr0 + k
+ * (bit k of kinds: write).  Every request during whose reception the allocator
+ * refused (failed, bit k) is owed a busy response that echoes it, and must not
+ * reach the memory.  What happens to the other requests is C06's business. */
+static bool
+judge_busy(const struct drv *d, unsigned failed, int nreq, int kinds, unsigned seq0, uint32_t addr0, int nr, const struct rframe *rp)
+{
+    for (int k = 0; k < nreq; ++k) {
+        if (!((failed >> k) & 1))
+            continue;
+        const unsigned wt = ((kinds >> k) & 1) ? RT_WRITE_RESP : RT_READ_RESP;
+        int j = -1;
+        for (int i = 0; i < nr && j < 0; ++i)
+            if ((rp[i].type == RT_READ_RESP || rp[i].type == RT_WRITE_RESP) && rp[i].seq == seq0 + (unsigned)k)
+                j = i;
+        if (j < 0) {
+            mc_fail("C09/busy-response", "request %d met an allocation failure: none of the %d replies is a response echoing its sequence number %04x (expected a busy response)", k, nr,
+                    seq0 + (unsigned)k);
+            return false;
+        }
+        if (rp[j].type != wt || rp[j].meta != 6 || rp[j].addr != addr0 + (uint32_t)k) {
+            mc_fail("C09/busy-response", "request %d met an allocation failure: reply type=%u code=%u seq=%04x addr=%x; expected a busy response echoing the request", k, rp[j].type,
+                    rp[j].meta, rp[j].seq, rp[j].addr);
+            return false;
+        }
+        for (int i = 0; i < d->ncalls && i < DRV_MAXCALLS; ++i)
+            if (d->call[i].addr == addr0 + (uint32_t)k) {
+                mc_fail("C09/busy-not-executed", "request %d met an allocation failure but the memory was accessed at its address %x", k, addr0 + (uint32_t)k);
+                return false;
+            }
+    }
+    return true;
+}
+
 static void
 family_iii(void)
 {
@@ -535,35 +639,22 @@ family_iii(void)
                     const size_t n = build_request(raw[k], tcp, write, true, 0x200 + (uint32_t)k, write ? 4 : 2, write ? 8 : 0, (uint16_t)(0x1100 + k));
                     wn += frame_wire(tcp, raw[k], n, wire + wn);
                 }
-                drv_init_ex(&D, tcp, true, 128, tv_srcmode(tv));
+                c09_init(&D, tcp, true, 128, tv_srcmode(tv));
                 if (slab)
                     use_slab(&D);
-                D.fail_mask = mask;
+                g_rfail = mask;
                 struct result r;
                 serve(&D, wire, wn, 3, &r);
                 const char *outcome = mask == 0 ? "alloc-all-ok" : mask == 7 ? "alloc-all-fail" : "alloc-mixed";
+                mc_log("%d receive rounds; allocation refused in receptions %u%u%u; %d memory accesses; %zu reply octets", r.nframes, g_rfailed & 1, (g_rfailed >> 1) & 1,
+                       (g_rfailed >> 2) & 1, D.ncalls, D.outlen);
                 if (safety(&D, "allocation script")) {
                     struct rframe rp[8];
                     const int nr = replies(&D, tcp, rp, scratch);
-                    int expect_calls = 0;
-                    for (int k = 0; k < 3; ++k)
-                        expect_calls += !((mask >> k) & 1);
-                    if (r.nframes != 3 || nr != 3)
-                        mc_fail("C09/every-request-answered", "%d receive rounds, %d replies for three requests", r.nframes, nr);
-                    else if (D.ncalls != expect_calls)
-                        mc_fail("C09/busy-not-executed", "%d memory accesses, %d requests had a frame block", D.ncalls, expect_calls);
+                    if (nr < 0)
+                        mc_fail("C09/reply-well-formed", "allocation script: the octets sent back are not a sequence of valid frames");
                     else
-                        for (int k = 0; k < 3; ++k) {
-                            const bool fail = (mask >> k) & 1;
-                            const bool write = (kinds >> k) & 1;
-                            const unsigned wt = write ? RT_WRITE_RESP : RT_READ_RESP;
-                            if (rp[k].type != wt || rp[k].seq != 0x1100 + k || rp[k].addr != 0x200u + (unsigned)k || rp[k].meta != (fail ? 6u : 0u)) {
-                                mc_fail(fail ? "C09/busy-response" : "C09/every-request-answered",
-                                        "request %d (allocation %s): reply type=%u code=%u seq=%04x addr=%x; expected %s echoing the request", k, fail ? "failed" : "ok",
-                                        rp[k].type, rp[k].meta, rp[k].seq, rp[k].addr, fail ? "a busy response" : "an acknowledgement");
-                                break;
-                            }
-                        }
+                        judge_busy(&D, g_rfailed, 3, kinds, 0x1100, 0x200, nr, rp);
                 }
                 drv_release(&D);
                 mc_end(true, mc.cur_failed ? "failed" : outcome);
@@ -656,8 +747,8 @@ family_iv(void)
                     memcpy(x, c->raw, c->n);
                     x[pos] = SUBST[si];
                     const size_t wn = frame_wire(c->tcp, x, c->n, wire);
-                    drv_init(&D, c->tcp, c->w16, 128, !c->tcp);
-                    D.fail_mask = af ? 1 : 0;
+                    c09_init(&D, c->tcp, c->w16, 128, c->tcp ? DRV_SRC_CHUNK : DRV_SRC_OCTET);
+                    g_rfail = af ? 1 : 0;
                     struct result r;
                     serve(&D, wire, wn, 2, &r);
                     snprintf(what, sizeof what, "octet %zu <- %02x, allocation %s", pos, SUBST[si], af ? "fails" : "ok");
@@ -687,7 +778,7 @@ family_iv(void)
                             x[p1] = SUBST[s1];
                             x[p2] = SUBST[s2];
                             const size_t wn = frame_wire(c->tcp, x, c->n, wire);
-                            drv_init(&D, c->tcp, c->w16, 128, !c->tcp);
+                            c09_init(&D, c->tcp, c->w16, 128, c->tcp ? DRV_SRC_CHUNK : DRV_SRC_OCTET);
                             struct result r;
                             serve(&D, wire, wn, 2, &r);
                             snprintf(what, sizeof what, "octet %zu <- %02x and octet %zu <- %02x", p1, SUBST[s1], p2, SUBST[s2]);
@@ -701,7 +792,7 @@ family_iv(void)
         if (mc_case("iv %s %s every truncation of the wire stream", c->tcp ? "tcp" : "serial", c->name)) {
             const size_t wn = frame_wire(c->tcp, c->raw, c->n, wire);
             for (size_t len = 0; len < wn && !mc.cur_failed; ++len) {
-                drv_init(&D, c->tcp, c->w16, 128, !c->tcp);
+                c09_init(&D, c->tcp, c->w16, 128, c->tcp ? DRV_SRC_CHUNK : DRV_SRC_OCTET);
                 struct result r;
                 serve(&D, wire, len, 2, &r);
                 snprintf(what, sizeof what, "wire stream cut after %zu of %zu octets", len, wn);
@@ -719,7 +810,7 @@ family_iv(void)
                 if (len == 0 && c->tcp)
                     continue;
                 const size_t wn = frame_wire(c->tcp, c->raw, len, wire);
-                drv_init(&D, c->tcp, c->w16, 128, !c->tcp);
+                c09_init(&D, c->tcp, c->w16, 128, c->tcp ? DRV_SRC_CHUNK : DRV_SRC_OCTET);
                 struct result r;
                 serve(&D, wire, wn, 1, &r);
                 snprintf(what, sizeof what, "frame of %zu octets (prefix of %s)", len, c->name);
@@ -750,12 +841,12 @@ family_iv(void)
                 continue;
             size_t wn = frame_wire(c->tcp, c->raw, c->n, wire);
             wn += frame_wire(c->tcp, corpus[cj].raw, corpus[cj].n, wire + wn);
-            drv_init(&D, c->tcp, c->w16, 128, !c->tcp);
+            c09_init(&D, c->tcp, c->w16, 128, c->tcp ? DRV_SRC_CHUNK : DRV_SRC_OCTET);
             struct result r;
             serve(&D, wire, wn, 3, &r);
             check_stream(&D, c->tcp, &r, "two frames");
-            if (!mc.cur_failed && (D.ncalls != 2 || r.nframes != 2))
-                mc_fail("C09/every-request-answered", "two valid requests: %d rounds, %d memory accesses", r.nframes, D.ncalls);
+            /* (that both are served is C06's sentence) */
+            mc_log("two valid requests: %d rounds, %d memory accesses", r.nframes, D.ncalls);
             drv_release(&D);
             mc_end(true, mc.cur_failed ? "failed" : "two-frames");
         }
@@ -774,7 +865,7 @@ family_iv(void)
                 memset(wire + wn, 0x01, 200);
                 wn += 200;
             }
-            drv_init(&D, true, true, 128, false);
+            c09_init(&D, true, true, 128, DRV_SRC_CHUNK);
             struct result r;
             serve(&D, wire, wn, 2, &r);
             mc_log("rc=%d error.id=%d calls=%d reply=%zu", r.rrc[0], r.errid[0], D.ncalls, D.outlen);
@@ -807,7 +898,7 @@ family_v(void)
                     }
                     /* the string is the wire stream itself (delimiters and prefixes included in the alphabet) */
                     memcpy(wire, s, (size_t)len);
-                    drv_init(&D, tcp, true, 128, !tcp);
+                    c09_init(&D, tcp, true, 128, tcp ? DRV_SRC_CHUNK : DRV_SRC_OCTET);
                     struct result r;
                     serve(&D, wire, (size_t)len, 3, &r);
                     snprintf(what, sizeof what, "stream %02x %02x %02x (len %d)", s[0], s[1], s[2], len);
@@ -841,8 +932,8 @@ family_vi(void)
                         if (mut >= 0)
                             x[(size_t)mut * (g_th ? 1 : c->n / 4) % c->n] ^= 0x40;
                         const size_t wn = frame_wire(c->tcp, x, c->n, wire);
-                        drv_init(&D, c->tcp, c->w16, 128, !c->tcp);
-                        D.fail_mask = af ? 1 : 0;
+                        c09_init(&D, c->tcp, c->w16, 128, c->tcp ? DRV_SRC_CHUNK : DRV_SRC_OCTET);
+                        g_rfail = af ? 1 : 0;
                         D.src_err_at = (long)pos;
                         D.src_err = e ? -EPIPE : -EIO;
                         struct result r;
@@ -870,8 +961,8 @@ family_vi(void)
                         if (variant == 2)
                             x[c->n - 1] ^= 0x01; /* checksum/payload fault */
                         const size_t wn = frame_wire(c->tcp, x, c->n, wire);
-                        drv_init(&D, c->tcp, c->w16, 128, !c->tcp);
-                        D.fail_mask = af ? 1 : 0;
+                        c09_init(&D, c->tcp, c->w16, 128, c->tcp ? DRV_SRC_CHUNK : DRV_SRC_OCTET);
+                        g_rfail = af ? 1 : 0;
                         D.sink_err_at = spos;
                         struct result r;
                         serve(&D, wire, wn, 1, &r);
@@ -921,11 +1012,11 @@ family_vii(void)
                     else if (bad == 2) { w2[0] = 12; n2 = 1; }
                     else { memcpy(w2, w1, 9); n2 = 9; }
                 }
-                drv_init(&D, tcp, true, 128, !tcp);
+                c09_init(&D, tcp, true, 128, tcp ? DRV_SRC_CHUNK : DRV_SRC_OCTET);
                 RPMaybeFrame mf;
                 memset(&mf, 0, sizeof mf);
                 drv_feed(&D, w1, n1);
-                const int rrc1 = regp_recv(&D.p, &mf);
+                const int rrc1 = c09_recv(&D, &mf);
                 const int prc1 = rrc1 >= 0 ? regp_process(&D.p, &mf) : 0;
                 RPFrame *held = mf.frame;
                 const int calls1 = D.ncalls;
@@ -937,7 +1028,7 @@ family_vii(void)
                 drv_feed(&D, w2, n2);
                 D.ncalls = 0;
                 D.outlen = 0;
-                const int rrc2 = regp_recv(&D.p, &mf);
+                const int rrc2 = c09_recv(&D, &mf);
                 int prc2 = 0;
                 const bool failed = rrc2 < 0;
                 prc2 = regp_process(&D.p, &mf); /* the lenient caller */
@@ -946,9 +1037,8 @@ family_vii(void)
                 mc_trans(5);
                 mc_log("first: recv rc=%d process rc=%d calls=%d; second: recv rc=%d error.id=%d process rc=%d calls=%d reply=%zu", rrc1, prc1, calls1, rrc2,
                        mf.error.id, prc2, D.ncalls, D.outlen);
-                if (rrc1 < 0 || calls1 != 1)
-                    mc_fail("C09/frame-that-fits-is-served", "the valid write request: recv rc=%d, %d memory accesses", rrc1, calls1);
-                else if (D.ncalls != 0)
+                /* (that the valid write request is served is C06's sentence) */
+                if (D.ncalls != 0)
                     mc_fail("C09/failed-reception-not-executed", "reception %s (rc=%d) was followed by %d memory accesses in regp_process", failed ? "failed" : "of garbage", rrc2,
                             D.ncalls);
                 else {
@@ -1249,10 +1339,10 @@ viii_run(const struct scen *s, int tv, bool octet_sink, int style, long at1, int
 {
     const bool tcp = tv != 0;
     const bool lenient = style & 1;
-    drv_init_ex(&D, tcp, true, 128, tv_srcmode(tv));
+    c09_init(&D, tcp, true, 128, tv_srcmode(tv));
     if (style & 2)
         use_slab(&D);
-    D.fail_mask = s->fail_mask;
+    g_rfail = s->fail_mask;
     D.verdict = s->verdict;
     D.verdict_addr = VIII_ADDR;
     connect_x(&D, tcp, tv_srcmode(tv), false, octet_sink, at1, a1, at2, a2);
@@ -1260,7 +1350,7 @@ viii_run(const struct scen *s, int tv, bool octet_sink, int style, long at1, int
     RPMaybeFrame mf;
     memset(&mf, 0, sizeof mf);
     memset(v, 0, sizeof *v);
-    v->rrc = regp_recv(&D.p, &mf);
+    v->rrc = c09_recv(&D, &mf);
     v->errid = mf.error.id;
     v->hadframe = mf.frame != NULL;
     if (v->rrc >= 0 || lenient)
@@ -1453,12 +1543,12 @@ family_ix(void)
                 const bool tcp = tv != 0;
                 if (!mc_case("ix blocksize=%zu %s write8 frame-length=%llu (generated stream)", BS[bi], TVN[tv], (unsigned long long)LEN[li].len))
                     continue;
-                drv_init_ex(&D, tcp, false, BS[bi], tv_srcmode(tv));
+                c09_init(&D, tcp, false, BS[bi], tv_srcmode(tv));
                 (void)lazy_write_request(tcp, false, LEN[li].len);
                 connect_x(&D, tcp, tv_srcmode(tv), true, false, -1, 0, -1, 0);
                 RPMaybeFrame mf;
                 memset(&mf, 0, sizeof mf);
-                const int rrc = regp_recv(&D.p, &mf);
+                const int rrc = c09_recv(&D, &mf);
                 const int prc = rrc >= 0 ? regp_process(&D.p, &mf) : 0;
                 const int errid = mf.error.id;
                 if (mf.frame != NULL)
@@ -1496,7 +1586,7 @@ family_ix(void)
                                  w16 ? 16 : 8, (unsigned long long)L))
                         continue;
                     /* the block size whose capacity the library shows to be L + slack */
-                    const size_t fitted = drv_block_for_capacity((size_t)L + (size_t)slack, !tcp);
+                    const size_t fitted = drv_block_for_capacity_wide((size_t)L + (size_t)slack, !tcp);
                     mc_log("block size with a learned capacity of %zu octets: %zu", (size_t)L + (size_t)slack, fitted);
                     if (fitted == 0) {
                         static bool capped;
@@ -1506,29 +1596,33 @@ family_ix(void)
                         mc_end(false, "capacity-not-learned");
                         continue;
                     }
-                    drv_init_ex(&D, tcp, w16, fitted, tv_srcmode(tv));
+                    c09_init(&D, tcp, w16, fitted, tv_srcmode(tv));
                     const uint64_t plen = lazy_write_request(tcp, w16, L);
                     connect_x(&D, tcp, tv_srcmode(tv), true, false, -1, 0, -1, 0);
                     RPMaybeFrame mf;
                     memset(&mf, 0, sizeof mf);
-                    const int rrc = regp_recv(&D.p, &mf);
+                    const int rrc = c09_recv(&D, &mf);
                     const int prc = rrc >= 0 ? regp_process(&D.p, &mf) : 0;
                     const int errid = mf.error.id;
                     if (mf.frame != NULL)
                         regp_free(&D.p, mf.frame);
                     mc_trans(3);
                     mc_log("recv rc=%d error.id=%d process rc=%d calls=%d reply=%zu", rrc, errid, prc, D.ncalls, X.outlen);
+                    bool served = false;
                     if (safety_x(&D, "large frame that fits")) {
                         struct rframe rp[8];
                         const int nr = replies_buf(xbuf, X.outlen, tcp, rp, xscratch);
-                        if (rrc < 0 || errid != 0 || D.ncalls != 1 || nr != 1 || rp[0].meta != 0)
-                            mc_fail("C09/frame-that-fits-is-served", "frame of %llu octets fits capacity %zu: rc=%d error.id=%d calls=%d replies=%d code=%u", (unsigned long long)L,
-                                    (size_t)L + (size_t)slack, rrc, errid, D.ncalls, nr, nr > 0 ? rp[0].meta : 99);
-                        else if (D.call[0].bsize != plen / (w16 ? 2u : 1u) || !D.call[0].write)
-                            mc_fail("C09/payload-as-announced", "backend was asked for a block of %zu units; %llu payload octets were sent", D.call[0].bsize, (unsigned long long)plen);
+                        /* that it is served is C06's sentence; if it is, the backend gets the announced payload */
+                        if (nr < 0)
+                            mc_fail("C09/reply-well-formed", "the reply to a write request of %llu octets is not a sequence of valid frames", (unsigned long long)L);
+                        else if (D.ncalls == 1 && nr == 1 && rp[0].type == RT_WRITE_RESP && rp[0].meta == 0) {
+                            served = true;
+                            if (D.call[0].bsize != plen / (w16 ? 2u : 1u) || !D.call[0].write)
+                                mc_fail("C09/payload-as-announced", "backend was asked for a block of %zu units; %llu payload octets were sent", D.call[0].bsize, (unsigned long long)plen);
+                        }
                     }
                     drv_release(&D);
-                    mc_end(true, mc.cur_failed ? "failed" : "large-frame-served");
+                    mc_end(true, mc.cur_failed ? "failed" : served ? "large-frame-served" : D.ncalls == 0 ? "request-refused" : "request-answered-otherwise");
                 }
     /* (c) reads of about 2^16 octets, and around the transmit limit, from a block that can hold them */
     {
@@ -1564,7 +1658,7 @@ family_ix(void)
                            RLX[hi][w16].known ? "" : "unknown ", RLX[hi][w16].maxserved, RLX[hi][w16].have_t ? "" : "unknown ", RLX[hi][w16].tval);
                     const size_t n = build_request(raw, tcp, false, w16, 0x1000, bs, 0, 0x0c0d);
                     const size_t wn = frame_wire(tcp, raw, n, wire);
-                    drv_init(&D, tcp, w16, bsz, !tcp);
+                    c09_init(&D, tcp, w16, bsz, tcp ? DRV_SRC_CHUNK : DRV_SRC_OCTET);
                     memset(&LZ, 0, sizeof LZ);
                     connect_x(&D, tcp, tcp ? DRV_SRC_CHUNK : DRV_SRC_OCTET, false, false, -1, 0, -1, 0);
                     struct result r;
@@ -1581,6 +1675,186 @@ family_ix(void)
                 }
             }
     }
+}
+
+/* ---- family x: how the source cuts the stream into pieces ------------------------------------------ */
+/* A chunk source that offers its own buffer (getbuffer extension) is called
+ * directly and may answer a read with fewer octets than asked for; what it
+ * delivers reaches the receiving sink in pieces of that size.  Where the pieces
+ * end is the source's business: every set of up to two (thorough: three) piece
+ * boundaries inside the first frame of the stream, and every uniform limit on
+ * the size of a read - crossed with allocation failure in either reception,
+ * both allocator conventions, and a block that is large / has room for exactly
+ * the frame / is one octet short.  (On the serial transport and with sources
+ * that do not offer a buffer the library reads octet by octet: the pieces of
+ * such a source are never seen by the receiver.) */
+static size_t g_cut[3];
+static int g_ncut;
+static size_t g_piece; /* no read delivers more than this many octets (0: no limit) */
+
+static ssize_t
+cut_chunk(void *driver, void *out, size_t n)
+{
+    struct drv *d = driver;
+    if (++d->src_calls > d->src_budget) {
+        d->overrun = true;
+        return -EIO;
+    }
+    if (d->inpos >= d->inlen)
+        return -ENODATA;
+    size_t k = d->inlen - d->inpos;
+    if (k > n)
+        k = n;
+    if (g_piece && k > g_piece)
+        k = g_piece;
+    for (int i = 0; i < g_ncut; ++i)
+        if (d->inpos < g_cut[i] && g_cut[i] < d->inpos + k)
+            k = g_cut[i] - d->inpos;
+    memcpy(out, d->in + d->inpos, k);
+    d->inpos += k;
+    return (ssize_t)k;
+}
+
+#define X_SEQ 0x6600u
+#define X_ADDR 0x500u
+
+/* one stream under one cutting; false after a recorded failure */
+static bool
+x_run(const unsigned char *wire, size_t wn, size_t n0, bool w16, size_t bsz, bool cap_known, size_t cap, bool slab, unsigned mask, int kinds, size_t units0, size_t plen0,
+      const char *what)
+{
+    unsigned char scratch[DRV_WIRE];
+    c09_init(&D, true, w16, bsz, DRV_SRC_CHUNK_GETBUFFER);
+    {
+        Source src;
+        Sink snk;
+        chunk_source_init(&src, cut_chunk, &D);
+        src.ext.getbuffer = drv_src_getbuffer;
+        chunk_sink_init(&snk, drv_sink_chunk, &D);
+        regp_use_channel(&D.p, RP_EP_TCP, src, snk);
+    }
+    if (slab)
+        use_slab(&D);
+    g_rfail = mask;
+    struct result r;
+    serve(&D, wire, wn, 2, &r);
+    mc_log("%s: %d receive rounds (rc=%d,%d error.id=%d,%d); allocation refused in receptions %u%u; %d memory accesses; %zu reply octets", what, r.nframes, r.rrc[0], r.rrc[1],
+           r.errid[0], r.errid[1], g_rfailed & 1, (g_rfailed >> 1) & 1, D.ncalls, D.outlen);
+    bool ok = safety(&D, what);
+    if (ok) {
+        struct rframe rp[8];
+        const int nr = replies(&D, true, rp, scratch);
+        if (nr < 0) {
+            mc_fail("C09/reply-well-formed", "%s: the octets sent back are not a sequence of valid frames", what);
+            ok = false;
+        } else if (!judge_busy(&D, g_rfailed, 2, kinds, X_SEQ, X_ADDR, nr, rp))
+            ok = false;
+        else if (!(g_rfailed & 1) && cap_known) {
+            /* the first request met no allocation failure */
+            int j = -1, call = -1;
+            for (int i = 0; i < nr && j < 0; ++i)
+                if ((rp[i].type == RT_READ_RESP || rp[i].type == RT_WRITE_RESP) && rp[i].seq == X_SEQ)
+                    j = i;
+            for (int i = 0; i < D.ncalls && i < DRV_MAXCALLS && call < 0; ++i)
+                if (D.call[i].addr == X_ADDR)
+                    call = i;
+            if (n0 > cap) {
+                if (call >= 0) {
+                    mc_fail("C09/overflowing-frame-not-executed", "%s: frame of %zu octets exceeds capacity %zu but the memory was accessed", what, n0, cap);
+                    ok = false;
+                } else if (cap >= 16 && (j < 0 || rp[j].type != ((kinds & 1) ? RT_WRITE_RESP : RT_READ_RESP) || rp[j].meta != 4 || rp[j].addr != X_ADDR)) {
+                    mc_fail("C09/rx-overflow-response", "%s: frame of %zu octets into capacity %zu: %d replies, the one echoing the request: type=%u code=%u (expected a receive-overflow response)",
+                            what, n0, cap, nr, j >= 0 ? rp[j].type : 99, j >= 0 ? rp[j].meta : 99);
+                    ok = false;
+                }
+            } else if (call >= 0 && D.call[call].write && (D.call[call].bsize != units0 || D.call[call].plen != plen0)) {
+                mc_fail("C09/payload-as-announced", "%s: backend got %zu payload octets (block of %zu units) for an announced block of %zu units", what, D.call[call].plen,
+                        D.call[call].bsize, units0);
+                ok = false;
+            }
+        }
+    }
+    drv_release(&D);
+    return ok;
+}
+
+static void
+family_x(void)
+{
+    static const struct { bool write, w16; uint32_t units; size_t plen; int tier; const char *name; } FR[] = {
+        { false, true, 2, 0, 0, "read16(2)" }, { true, true, 4, 8, 0, "write16(4)" }, { true, false, 3, 3, 0, "write8(3)" }, { true, false, 21, 21, 0, "write8(21)" },
+        { true, true, 20, 40, 1, "write16(20)" },
+    };
+    unsigned char raw[2][128], wire[300];
+    char what[200];
+    for (unsigned fi = 0; fi < sizeof FR / sizeof *FR; ++fi)
+        for (int room = 0; room < 3; ++room)
+            for (unsigned mask = 0; mask < 4; ++mask)
+                for (int slab = 0; slab < 2; ++slab) {
+                    if (FR[fi].tier > (g_th ? 1 : 0))
+                        continue;
+                    static const char *ROOM[3] = { "block of 128 octets", "block with room for exactly the frame", "block one octet short of the frame" };
+                    if (!mc_case("x tcp+getbuffer %s then read16(2), %s, allocation fails in receptions %u%u, %s allocator x every cutting of the first frame into pieces (up to %d boundaries; reads of at most 1..24 octets)",
+                                 FR[fi].name, ROOM[room], mask & 1, (mask >> 1) & 1, slab ? "slab" : "generic", g_th ? 3 : 2))
+                        continue;
+                    const size_t n0 = build_request(raw[0], true, FR[fi].write, FR[fi].w16, X_ADDR, FR[fi].units, FR[fi].plen, X_SEQ);
+                    const size_t n1 = build_request(raw[1], true, false, FR[fi].w16, X_ADDR + 1, 2, 0, X_SEQ + 1);
+                    const size_t w0 = frame_wire(true, raw[0], n0, wire);
+                    const size_t wn = w0 + frame_wire(true, raw[1], n1, wire + w0);
+                    const int kinds = FR[fi].write ? 1 : 0;
+                    size_t bsz = 128, cap = 0;
+                    bool known = false, skip = false;
+                    if (room) {
+                        const size_t target = room == 1 ? n0 : n0 - 1;
+                        bsz = target >= 16 ? drv_block_for_capacity_wide(target, false) : 0;
+                        if (bsz == 0) {
+                            skip = true; /* no such block (or the overflow reply of so small a block is not demanded) */
+                        } else {
+                            known = learned_capacity(bsz, false, &cap);
+                        }
+                    } else
+                        known = learned_capacity(bsz, false, &cap);
+                    if (skip) {
+                        mc_end(false, "no-such-block");
+                        continue;
+                    }
+                    mc_log("block of %zu octets, learned capacity %s%zu; first frame %zu octets", bsz, known ? "" : "none ", cap, n0);
+                    bool ok = true;
+                    long runs = 0;
+                    /* uniform limits */
+                    g_ncut = 0;
+                    for (size_t c = 1; c <= 24 && ok; ++c) {
+                        g_piece = c;
+                        snprintf(what, sizeof what, "no read delivers more than %zu octets", c);
+                        ok = x_run(wire, wn, n0, FR[fi].w16, bsz, known, cap, slab, mask, kinds, FR[fi].units, FR[fi].plen, what);
+                        runs++;
+                    }
+                    g_piece = 0;
+                    /* piece boundaries at stream offsets c1 < c2 < c3 inside the first frame (offset 0 = in front of the length prefix) */
+                    const int maxcut = g_th ? 3 : 2;
+                    /* (c = 0: no boundary; c1 < c2 < c3) */
+                    for (size_t c1 = 0; c1 < w0 && ok; ++c1)
+                        for (size_t i2 = 0; ok; ++i2) {
+                            const size_t c2 = i2 ? c1 + i2 : 0;
+                            if (c2 >= w0 || (i2 && (c1 == 0 || maxcut < 2)))
+                                break;
+                            for (size_t i3 = 0; ok; ++i3) {
+                                const size_t c3 = i3 ? c2 + i3 : 0;
+                                if (c3 >= w0 || (i3 && (c2 == 0 || maxcut < 3)))
+                                    break;
+                                g_ncut = 0;
+                                if (c1) g_cut[g_ncut++] = c1;
+                                if (c2) g_cut[g_ncut++] = c2;
+                                if (c3) g_cut[g_ncut++] = c3;
+                                snprintf(what, sizeof what, "piece boundaries at stream offsets {%zu,%zu,%zu} (0: none)", c1, c2, c3);
+                                ok = x_run(wire, wn, n0, FR[fi].w16, bsz, known, cap, slab, mask, kinds, FR[fi].units, FR[fi].plen, what);
+                                runs++;
+                            }
+                        }
+                    g_ncut = 0;
+                    mc_log("%ld cuttings", runs);
+                    mc_end(true, mc.cur_failed ? "failed" : mask ? "pieces-allocation-fails" : "pieces-allocation-ok");
+                }
 }
 
 int
@@ -1608,7 +1882,8 @@ main(int argc, char **argv)
     family_vii();
     family_viii();
     family_ix();
-    mc_finish(true, g_th ? "block sizes {F+1,F+2,F+3,F+11..F+17,F+32,128,129,200,257}; i: every frame length up to (block size - sizeof(RPFrame))+6, judged against the capacity learned per block size from the receiver's own answers; ii: every read size up to (block size - sizeof(RPFrame))+8, judged against the learned capacity, the learned largest read served and the learned reported buffer size; iii: 2 transports x 8 kind triples x 8 allocation scripts; iv: 8 corpus frames x every position x 13 octets x allocation, every pair of positions x 13x13 octets, truncations, short frames, concatenations, 12 TCP prefixes x 3 tails; v: all strings of length 0..3 over 13 octets; vi: source error at every octet x 2 codes x allocation x every single-octet mutation, sink error at every reply octet; vii: 2 transports x 4 undecodable streams after a valid request on one reused RPMaybeFrame x first frame freed/held; i and iii also with a chunk source offering a scratch buffer; ii: 6 request header variants, sizes as stated and 8 sizes >= 2^31-1; iii also with a slab allocator; viii: 34 reply kinds (4 replies of regp_recv, 8 of regp_process, 11 memory verdicts x read/write) x 3 transport variants x octet/chunk sink x {EAGAIN, EINTR, short write 1, short write n-1, zero-length write of several octets, EIO} at every sink call x a second answer at every later call x strict/lenient caller x generic/slab allocator; ix: generated streams, frame lengths 2^15-1..2^15+1, 2^16-1..2^16+1, 2^24-1..2^24+1 (3 transport variants), 2^31-1..2^31+1, 2^31+12345, 2^32-1..2^32+1, 2^32+77, 2^32+2^31, 2^32+2^31+1, 2^33+1 (tcp with a 64 KiB scratch buffer) into blocks of 128 and 4096, frames of 2^16-1..2^16+1 octets into blocks whose learned capacity is exactly that / one more, reads of 2^16 -+ 2 units and around the transmit limit from a block of 2^16+56 octets of capacity"
-                         : "block sizes {F+1,F+2,F+11..F+17,F+32,128,129}; i: every frame length up to (block size - sizeof(RPFrame))+6, judged against the capacity learned per block size from the receiver's own answers; ii: every read size up to (block size - sizeof(RPFrame))+8, judged against the learned capacity, the learned largest read served and the learned reported buffer size; iii: 2 transports x 8 kind triples x 8 allocation scripts; iv: 6 corpus frames x every position x 13 octets x allocation, truncations, short frames, concatenations, 12 TCP prefixes x 3 tails; v: all strings of length 0..3 over 13 octets; vi: source error at every octet x 2 codes x allocation x 4 mutations, sink error at every reply octet; vii: 2 transports x 4 undecodable streams after a valid request on one reused RPMaybeFrame x first frame freed/held; i and iii also with a chunk source offering a scratch buffer; ii: 6 request header variants, sizes as stated and 8 sizes >= 2^31-1; iii also with a slab allocator; viii: 34 reply kinds (4 replies of regp_recv, 8 of regp_process, 11 memory verdicts x read/write) x 3 transport variants x octet/chunk sink x {EAGAIN, EINTR, short write 1, short write n-1, zero-length write of several octets, EIO} at every sink call x a second answer at the following call x strict/lenient caller x generic/slab allocator; ix: generated streams, frame lengths 2^15-1..2^15+1, 2^16-1..2^16+1 (3 transport variants), 2^31-1..2^31+1, 2^31+12345, 2^32-1..2^32+1, 2^32+77 (tcp with a 64 KiB scratch buffer) into blocks of 128 and 4096, frames of 2^16-1..2^16+1 octets into blocks whose learned capacity is exactly that / one more, reads of 2^16 -+ 2 units and around the transmit limit from a block of 2^16+56 octets of capacity");
+    family_x();
+    mc_finish(true, g_th ? "block sizes {F+1,F+2,F+3,F+11..F+17,F+32,128,129,200,257}; i: every frame length up to (block size - sizeof(RPFrame))+6, judged against the capacity learned per block size from the receiver's own answers; ii: every read size up to (block size - sizeof(RPFrame))+8, judged against the learned capacity, the learned largest read served and the learned reported buffer size; iii: 3 transport variants x 8 kind triples x 8 allocation scripts (per reception) x generic/slab allocator; iv: 8 corpus frames x every position x 13 octets x allocation, every pair of positions x 13x13 octets, truncations, short frames, concatenations, 12 TCP prefixes x 3 tails; v: all strings of length 0..3 over 13 octets; vi: source error at every octet x 2 codes x allocation x every single-octet mutation, sink error at every reply octet; vii: 2 transports x 4 undecodable streams after a valid request on one reused RPMaybeFrame x first frame freed/held; i and iii also with a chunk source offering a scratch buffer; ii: 6 request header variants, sizes as stated and 8 sizes >= 2^31-1; iii also with a slab allocator; viii: 34 reply kinds (4 replies of regp_recv, 8 of regp_process, 11 memory verdicts x read/write) x 3 transport variants x octet/chunk sink x {EAGAIN, EINTR, short write 1, short write n-1, zero-length write of several octets, EIO} at every sink call x a second answer at every later call x strict/lenient caller x generic/slab allocator; ix: generated streams, frame lengths 2^15-1..2^15+1, 2^16-1..2^16+1, 2^24-1..2^24+1 (3 transport variants), 2^31-1..2^31+1, 2^31+12345, 2^32-1..2^32+1, 2^32+77, 2^32+2^31, 2^32+2^31+1, 2^33+1 (tcp with a 64 KiB scratch buffer) into blocks of 128 and 4096, frames of 2^16-1..2^16+1 octets into blocks whose learned capacity is exactly that / one more, reads of 2^16 -+ 2 units and around the transmit limit from a block of 2^16+56 octets of capacity; x: tcp with a chunk source offering its buffer, first frame {read16(2), write16(4), write8(3), write8(21), write16(20)} followed by a read request x block {128, capacity exactly the frame, one octet short} x allocation failure in either reception x generic/slab allocator x every set of up to 3 piece boundaries inside the first frame and every limit of 1..24 octets per read"
+                         : "block sizes {F+1,F+2,F+11..F+17,F+32,128,129}; i: every frame length up to (block size - sizeof(RPFrame))+6, judged against the capacity learned per block size from the receiver's own answers; ii: every read size up to (block size - sizeof(RPFrame))+8, judged against the learned capacity, the learned largest read served and the learned reported buffer size; iii: 3 transport variants x 8 kind triples x 8 allocation scripts (per reception) x generic/slab allocator; iv: 6 corpus frames x every position x 13 octets x allocation, truncations, short frames, concatenations, 12 TCP prefixes x 3 tails; v: all strings of length 0..3 over 13 octets; vi: source error at every octet x 2 codes x allocation x 4 mutations, sink error at every reply octet; vii: 2 transports x 4 undecodable streams after a valid request on one reused RPMaybeFrame x first frame freed/held; i and iii also with a chunk source offering a scratch buffer; ii: 6 request header variants, sizes as stated and 8 sizes >= 2^31-1; iii also with a slab allocator; viii: 34 reply kinds (4 replies of regp_recv, 8 of regp_process, 11 memory verdicts x read/write) x 3 transport variants x octet/chunk sink x {EAGAIN, EINTR, short write 1, short write n-1, zero-length write of several octets, EIO} at every sink call x a second answer at the following call x strict/lenient caller x generic/slab allocator; ix: generated streams, frame lengths 2^15-1..2^15+1, 2^16-1..2^16+1 (3 transport variants), 2^31-1..2^31+1, 2^31+12345, 2^32-1..2^32+1, 2^32+77 (tcp with a 64 KiB scratch buffer) into blocks of 128 and 4096, frames of 2^16-1..2^16+1 octets into blocks whose learned capacity is exactly that / one more, reads of 2^16 -+ 2 units and around the transmit limit from a block of 2^16+56 octets of capacity; x: tcp with a chunk source offering its buffer, first frame {read16(2), write16(4), write8(3), write8(21)} followed by a read request x block {128, capacity exactly the frame, one octet short} x allocation failure in either reception x generic/slab allocator x every set of up to 2 piece boundaries inside the first frame and every limit of 1..24 octets per read");
     return 0;
 }
